@@ -449,7 +449,12 @@ def judge_sequence_export(ctx, items, sr, cast, ignore_errors, fmt, raise_time=T
             got = [(s.onset_s, s.offset_s, s.onset_sample, s.offset_sample, s.label) for s in out.segments]
         else:
             clip = data.Clip(uuid=uuid.UUID(int=9), recording=rec, start_time=0, end_time=600.0)
-            ca = data.ClipAnnotation(uuid=uuid.UUID(int=10), clip=clip, sound_events=anns)
+            seqs = []
+            if anns and len(items) % 2:
+                # the clip annotation also groups SOME of its sound events into a sequence (a phrase): the export is still
+                # one element per sound event annotation
+                seqs = [data.SequenceAnnotation(uuid=uuid.UUID(int=11), sequence=data.Sequence(uuid=uuid.UUID(int=12), sound_events=[a.sound_event for a in anns[: max(1, len(anns) // 2)]]))]
+            ca = data.ClipAnnotation(uuid=uuid.UUID(int=10), clip=clip, sound_events=anns, sequences=seqs)
             kw = {"raise_on_time_geometries": raise_time} if fmt == "bbox" else {}
             out = A.annotation_from_clip_annotation(ca, "/x/annot.csv", fmt, ignore_errors=ignore_errors, cast_geometry=cast, value_only=True, **kw, **lkw)
             if fmt == "bbox":
